@@ -32,3 +32,54 @@ var _ *openfgav1.Userset
 //@   props C04 C05
 //@   ensures exact: result == (exists i int :: 0 <= i && i < len(tupleCycles) && tupleCycles[i] == nodeID)
 //@   loop 1 invariant forall i int :: 0 <= i && i < $i ==> tupleCycles[i] != nodeID
+
+//@ func (*WeightedAuthorizationModelGraph).removeNodeFromTupleCycles
+//@   props C04
+//@   ensures fresh_result: fresh(result)
+//@   ensures only_others:  forall i int :: 0 <= i && i < len(result) ==> result[i] != nodeID
+//@   ensures subset:       forall i int :: 0 <= i && i < len(result) ==> (exists j int :: 0 <= j && j < len(tupleCycles) && tupleCycles[j] == result[i])
+//@   ensures keeps_others: forall j int :: 0 <= j && j < len(tupleCycles) && tupleCycles[j] != nodeID ==> (exists i int :: 0 <= i && i < len(result) && result[i] == tupleCycles[j])
+//@   loop 1 invariant fresh(result) && len(result) <= $i
+//@   loop 1 invariant forall i int :: 0 <= i && i < len(result) ==> result[i] != nodeID
+//@   loop 1 invariant forall i int :: 0 <= i && i < len(result) ==> (exists j int :: 0 <= j && j < $i && tupleCycles[j] == result[i])
+//@   loop 1 invariant forall j int :: 0 <= j && j < $i && tupleCycles[j] != nodeID ==> (exists i int :: 0 <= i && i < len(result) && result[i] == tupleCycles[j])
+//@   loop 1 invariant forall j int :: 0 <= j && j < len(tupleCycles) ==> tupleCycles[j] == old(tupleCycles[j])
+
+// ---------------------------------------------------------------------------------------------------------------
+// C04: the three weight strategies. `edges` = wg.edges[nodeID] at entry.
+
+//@ spec wfEdges(es []*WeightedAuthorizationModelEdge) bool =
+//@   forall i int :: 0 <= i && i < len(es) ==> es[i] != nil
+
+//@ spec terminalKind(n *WeightedAuthorizationModelNode) bool =
+//@   n.nodeType == SpecificType || n.nodeType == SpecificTypeWildcard
+
+//@ func (*WeightedAuthorizationModelGraph).calculateNodeWeightWithMaxStrategy
+//@   props C04 C05 C06
+//@   opaque_strings
+//@   requires wg != nil && wg.nodes[nodeID] != nil && wfEdges(wg.edges[nodeID])
+//@   requires forall i int, k string :: 0 <= i && i < len(wg.edges[nodeID]) && has(wg.edges[nodeID][i].weights, k) ==> 0 <= wg.edges[nodeID][i].weights[k] && wg.edges[nodeID][i].weights[k] <= Infinite
+//@   ensures rejects_iff_no_edge: (err != nil) <==> (len(old(wg.edges[nodeID])) == 0 && !terminalKind(old(wg.nodes[nodeID])))
+//@   ensures error_is_invalid_model: err != nil ==> wraps(err, ErrInvalidModel)
+//@   ensures keys_are_union: err == nil ==> (forall k string :: has(old(wg.nodes[nodeID]).weights, k)
+//@                              <==> (exists i int :: 0 <= i && i < len(old(wg.edges[nodeID])) && has(old(old(wg.edges[nodeID])[i].weights), k)))
+//@   ensures value_is_upper_bound: err == nil ==> (forall k string, i int :: 0 <= i && i < len(old(wg.edges[nodeID])) && has(old(old(wg.edges[nodeID])[i].weights), k)
+//@                              ==> old(old(wg.edges[nodeID])[i].weights[k]) <= old(wg.nodes[nodeID]).weights[k])
+//@   ensures value_is_attained: err == nil ==> (forall k string :: has(old(wg.nodes[nodeID]).weights, k)
+//@                              ==> (exists i int :: 0 <= i && i < len(old(wg.edges[nodeID])) && has(old(old(wg.edges[nodeID])[i].weights), k)
+//@                                     && old(old(wg.edges[nodeID])[i].weights[k]) == old(wg.nodes[nodeID]).weights[k]))
+//@   ensures fresh_map: err == nil ==> fresh(old(wg.nodes[nodeID]).weights)
+//@   ensures frame_nodes: forall n *WeightedAuthorizationModelNode :: n != old(wg.nodes[nodeID]) ==> n.weights == old(n.weights)
+//@   ensures frame_error: err != nil ==> old(wg.nodes[nodeID]).weights == old(wg.nodes[nodeID].weights)
+//@   loop 1 invariant fresh(weights) && weights != nil
+//@   loop 1 invariant forall k string :: has(weights, k) <==> (exists i int :: 0 <= i && i < $i && has(edges[i].weights, k))
+//@   loop 1 invariant forall k string, i int :: 0 <= i && i < $i && has(edges[i].weights, k) ==> edges[i].weights[k] <= weights[k]
+//@   loop 1 invariant forall k string :: has(weights, k) ==> (exists i int :: 0 <= i && i < $i && has(edges[i].weights, k) && edges[i].weights[k] == weights[k])
+//@   loop 1 invariant forall k string :: has(weights, k) ==> 0 <= weights[k] && weights[k] <= Infinite
+//@   loop 1.1 invariant fresh(weights) && weights != nil
+//@   loop 1.1 invariant forall k string :: has(weights, k) <==> ((exists i int :: 0 <= i && i < $i_1 && has(edges[i].weights, k)) || $visited[k])
+//@   loop 1.1 invariant forall k string :: $visited[k] ==> has(edge.weights, k)
+//@   loop 1.1 invariant forall k string, i int :: 0 <= i && i < $i_1 && has(edges[i].weights, k) ==> edges[i].weights[k] <= weights[k]
+//@   loop 1.1 invariant forall k string :: $visited[k] ==> edge.weights[k] <= weights[k]
+//@   loop 1.1 invariant forall k string :: has(weights, k) ==> ((exists i int :: 0 <= i && i < $i_1 && has(edges[i].weights, k) && edges[i].weights[k] == weights[k]) || ($visited[k] && edge.weights[k] == weights[k]))
+//@   loop 1.1 invariant forall k string :: has(weights, k) ==> 0 <= weights[k] && weights[k] <= Infinite
